@@ -170,6 +170,11 @@ func handleFallbackData(s *Session, h header, buf []byte) (int, bool, error) {
 	if len(buf) < payloadLen {
 		return 0, true, nil
 	}
+	// whatever the peer put into the queue before it wrote this event must be handled first, even if the polling event
+	// which announces it is still on its way (it is written by another goroutine of the peer).
+	if _, err := consumeRecvQueue(s); err != nil {
+		return eventLen, false, err
+	}
 	data := make([]byte, payloadLen)
 	copy(data, buf[:payloadLen])
 	// fallback data layout:  eventHeader | seqID | status | payload
@@ -273,27 +278,38 @@ func handleShareMemoryByMemFd(s *Session, h header) error {
 	return nil
 }
 
+// consumeRecvQueue hands every element which is in the receive queue now to its stream.
+// err is fatal for the session, retErr is the last error of handleStreamMessage.
+func consumeRecvQueue(s *Session) (retErr error, err error) {
+	for ele, e := s.queueManager.recvQueue.pop(); e == nil; ele, e = s.queueManager.recvQueue.pop() {
+		state := streamState(ele.status & 0xff)
+		stream := s.getStream(ele.seqID, state)
+		if stream == nil && state == streamOpened {
+			slice, err := s.bufferManager.readBufferSlice(ele.offsetInShmBuf)
+			if err != nil {
+				return retErr, err
+			}
+			s.bufferManager.recycleBuffers(slice)
+			continue
+		}
+		if stream == nil {
+			continue
+		}
+		retErr = s.handleStreamMessage(stream, bufferSliceWrapper{offset: ele.offsetInShmBuf}, state)
+	}
+	return retErr, nil
+}
+
 func handlePolling(s *Session, hdr header, buf []byte) (int, bool, error) {
 	atomic.AddUint64(&s.stats.recvPollingEventCount, 1)
-	consumedCount := 0
 	var retErr error
 	for {
-		for ele, err := s.queueManager.recvQueue.pop(); err == nil; ele, err = s.queueManager.recvQueue.pop() {
-			consumedCount++
-			state := streamState(ele.status & 0xff)
-			stream := s.getStream(ele.seqID, state)
-			if stream == nil && state == streamOpened {
-				slice, err := s.bufferManager.readBufferSlice(ele.offsetInShmBuf)
-				if err != nil {
-					return headerSize, false, err
-				}
-				s.bufferManager.recycleBuffers(slice)
-				continue
-			}
-			if stream == nil {
-				continue
-			}
-			retErr = s.handleStreamMessage(stream, bufferSliceWrapper{offset: ele.offsetInShmBuf}, state)
+		e, err := consumeRecvQueue(s)
+		if err != nil {
+			return headerSize, false, err
+		}
+		if e != nil {
+			retErr = e
 		}
 
 		runtime.Gosched()
@@ -351,6 +367,10 @@ func handleStreamClose(s *Session, hdr header, buf []byte) (int, bool, error) {
 	}
 	id := binary.BigEndian.Uint32(buf[:4])
 	s.logger.debugf("receive peer stream[%d] goaway.", id)
+	// data which the peer put into the queue before it wrote this event must not be overtaken by the close
+	if _, err := consumeRecvQueue(s); err != nil {
+		return headerSize + idLen, false, err
+	}
 
 	stream := s.getStreamById(id)
 	if stream == nil {
